@@ -5,6 +5,7 @@ go 1.26.8
 require (
 	github.com/anishathalye/porcupine v1.3.0
 	github.com/dappledger/AnnChain v0.0.0
+	github.com/ethereum/go-ethereum v1.8.27
 	pgregory.net/rapid v1.3.0
 )
 
